@@ -39,6 +39,7 @@ type Spec struct {
 	Web      bool   // build the HTTP router (process-global in inbucket: one at a time)
 	History  int    // monitor history length (0 = 30)
 	NoHub    bool
+	POP3TLS  bool // POP3 offers STLS (self-signed test certificate), not forced
 	// PreLua / PostLua register Go listeners before / after the Lua host registers its own.
 	PreLua, PostLua func(*extension.Host) `json:"-"`
 }
@@ -81,6 +82,10 @@ func New(spec Spec) *Sys {
 		panic("VERIF-INFRA naming " + spec.Naming)
 	}
 	conf.POP3 = config.POP3{Domain: "verif.test", Timeout: 600 * time.Second}
+	if spec.POP3TLS {
+		conf.POP3.TLSEnabled = true
+		conf.POP3.TLSCert, conf.POP3.TLSPrivKey = TestCert()
+	}
 	conf.Web = config.Web{BasePath: spec.BasePath, UIDir: "/nonexistent", MonitorHistory: spec.History, MonitorVisible: true}
 	if conf.Web.MonitorHistory == 0 {
 		conf.Web.MonitorHistory = 30
